@@ -1150,6 +1150,7 @@ func main() {
 		n, _ = strconv.Atoi(os.Args[2])
 	}
 	if len(os.Args) >= 2 && os.Args[1] == "bloom" {
+		probeMinMaxSet()
 		r := gen.FromEnv(2020)
 		for i := 0; i < n; i++ {
 			gen.Emit(runBloomCase(i, genBloomCase(r), workDir()))
